@@ -96,4 +96,14 @@ theorem C07_cut_vs_remove :
 example : let w := run [Op.add 0, .add 1, .connect (1, 0) (0, 1)] [2, 2]
     1 ∈ w.structs ∧ ((1, 0), (0, 1)) ∈ w.conns := by decide
 
+/-- **auto-raise exposes exactly the free pins**: when raise-all succeeds, every pin the solver reports as free is exposed, every
+entry it adds exposes a free pin under that pin's own name, and no pin is exposed twice (with `C07_free_pins_exact`: the pins
+auto-raised are exactly the unconnected pins of the remaining components) -/
+theorem C07_raise_exposes_exactly_free (nameOf : Pin → Nat) (w : W) (hp : PinsNodup w.mapping)
+    (h : (raiseAll nameOf w).2 = .ok) :
+    (∀ p ∈ w.free, ∃ e ∈ (raiseAll nameOf w).1.mapping, e.2 = p) ∧
+    (∀ e ∈ (raiseAll nameOf w).1.mapping, e ∈ w.mapping ∨ (e.2 ∈ w.free ∧ e.1 = nameOf e.2)) ∧
+    PinsNodup (raiseAll nameOf w).1.mapping :=
+  ⟨raiseAll_ok_exposes_all_free nameOf w h, raiseAll_added_own_name nameOf w, raiseAll_pins_nodup nameOf w hp⟩
+
 end Wiring
